@@ -79,6 +79,12 @@ theorem builder_pipeline (s pre post : Str) (hs : NUL ∉ s) (hpre : Clean pre) 
     ∃ w, decode (encode s) = .ok w ∧ lex (pre ++ pgQuote w ++ post) = (run .top pre).1 ++ Tok.str s :: lex post :=
   ⟨s, decode_encode_aux s, lit_in_context pre s post hpre hs hpost⟩
 
+/-- STARTS WITH / ENDS WITH / CONTAINS operands are rewritten by `rewriteStringWildCardLiteral` before they are
+quoted; as a LIKE pattern the rewritten text matches exactly the denoted string, for all strings (so the value
+read back in these positions is the denoted one wrapped in `%`). The same rewrite applied to a `=~` operand is
+a defect (finding `C04:regex_operand:like-escaped-value`): a regular expression gives `\\` another meaning. -/
+theorem like_escape_literal (s : Str) : likeLiteral (likeEsc s) = some s := likeLiteral_likeEsc s
+
 /-! ## 3. property keys and map keys -/
 
 /-- `UnescapePropertyKeyName` inverts the back-tick form of `EscapePropertyKeyName`, for all names -/
